@@ -447,6 +447,7 @@ pub fn run(args: &Args, r: &mut Report) {
                         v
                     })
                     .collect();
+                c.detach_last_progress = rng.chance(1, 3);
             }
         }
         let l = add_reboot_waits(&mut case.script, &mut rng, false, &apps);
